@@ -79,6 +79,22 @@ class Evaluator:
         self.choices = {}
         self.stores = []
         self.consts = {}
+        self._const_cache = {}
+
+    def _const_value(self, path):
+        """Value of a const / static item of an inlinable crate, by evaluating its initialiser (arrays and tuples of constants)."""
+        if path in self._const_cache:
+            return self._const_cache[path]
+        self._const_cache[path] = None
+        crate = path.lstrip("<&").split("::")[0]
+        if crate in self.inline_crates:
+            try:
+                bs = self.facts.crate(crate)["_bodies"].get(path, [])
+                if len(bs) == 1 and "hir" in bs[0]:
+                    self._const_cache[path] = self.ev(bs[0]["hir"], Env())
+            except Unrecognised:
+                self._const_cache[path] = None
+        return self._const_cache[path]
 
     def oracle(self, key):
         if key not in self.choices:
@@ -129,6 +145,10 @@ class Evaluator:
                 return ("bool", self.consts[p])
             if p in self.consts and isinstance(self.consts[p], int):
                 return ("int", self.consts[p])
+            if e.get("dk") in ("Const", "AssocConst", "Static") or p in self._const_cache:
+                v = self._const_value(p)
+                if v is not None:
+                    return v
             return ("enum", p)
         if k == "block":
             env = Env(env) if isinstance(env, Env) else Env(_as_env(env))
@@ -236,8 +256,24 @@ class Evaluator:
         if k == "index":
             b_ = hir.simp(e["e"])
             i_ = self.ev(e["i"], env)
-            if b_.get("k") == "def" and i_[0] == "int":
-                return ("idx", b_["path"], i_[1])
+            if b_.get("k") == "def" and ("index:" + b_["path"]) in self.atoms:
+                return self.atoms["index:" + b_["path"]]([i_])
+            if b_.get("k") == "index" and hir.simp(b_["e"]).get("k") == "def" and ("index:" + hir.simp(b_["e"])["path"]) in self.atoms:
+                return self.atoms["index:" + hir.simp(b_["e"])["path"]]([self.ev(b_["i"], env), i_])
+            base = None
+            if b_.get("k") == "def":
+                base = self._const_value(b_["path"])
+                if base is None and i_[0] == "int":
+                    return ("idx", b_["path"], i_[1])
+            else:
+                try:
+                    base = self.ev(b_, env)
+                except Unrecognised:
+                    base = None
+            if base is not None and base[0] == "array" and i_[0] == "int":
+                if 0 <= i_[1] < len(base) - 1:
+                    return base[1 + i_[1]]
+                raise Unrecognised(f"index {i_[1]} out of bounds of a {len(base) - 1}-element table")
             raise Unrecognised("indexing outside a constant table")
         if k == "closure":
             return ("closure", e, env)
@@ -251,6 +287,8 @@ class Evaluator:
             for f in e.get("fields", []):
                 rec[f["name"]] = self.ev(f["e"], env)
             return ("rec", rec)
+        if k == "array":
+            return ("array",) + tuple(self.ev(x, env) for x in e["es"])
         if k == "tuple" and not e["es"]:
             return ("unit",)
         if k == "tuple":
@@ -504,6 +542,14 @@ class Evaluator:
                     return self.apply(args[1], [r[1]]) if r[0] == "ok" else r
                 if short in ("or_else",):
                     return self.apply(args[1], [r[1]]) if r[0] == "err" else r
+        if short in ("get",) and args and args[0][0] == "array" and len(args) == 2 and args[1][0] == "int":
+            return ("some", args[0][1 + args[1][1]]) if 0 <= args[1][1] < len(args[0]) - 1 else ("none",)
+        if short in ("copied", "cloned") and args and args[0][0] in ("some", "none"):
+            return args[0]
+        if short == "len" and args and args[0][0] == "array":
+            return ("int", len(args[0]) - 1)
+        if short == "transmute" and "transmute" in self.atoms:
+            return self.atoms["transmute"](args + [e.get("ty")])
         if short == "is_empty" and args and args[0][0] == "str":
             return ("bool", args[0][1] == "")
         crate = cal.lstrip("<&").split("::")[0]
